@@ -78,7 +78,8 @@ func NewDir(conf config.Config, opts ...Opts) Store {
 				return fmt.Errorf("uploads in progress")
 			}
 			// warning, this will block, ensure repos are always held open for a minimal time (this mostly affects the design of tests)
-			if !*dr.conf.Storage.ReadOnly {
+			// a negative frequency disables the GC, also when a repo is released
+			if !*dr.conf.Storage.ReadOnly && dr.conf.Storage.GC.Frequency >= 0 {
 				if err := dr.gc(); err != nil {
 					return err
 				}
